@@ -60,6 +60,13 @@ def cls_leading_zero(token):
     return len(body) > 1 and body.startswith('0') and body.isdigit()
 
 
+def cls_like_void(cell):
+    '''LIKE n BUT MAT=0 without RHO.'''
+    but = cell.get('but') or {}
+    return (cell.get('like') is not None and but.get('mat') == 0
+            and 'rho' not in but)
+
+
 def classify_split(spellings):
     '''Class of a set of spellings of one number that got several names.'''
     spellings = sorted(spellings)
@@ -119,6 +126,9 @@ def check_file(deck, t4, rng, n_points=200, compositions=True):
             tok = parse_name(name)
             cls = 'material_leading_zero' if tok and cls_leading_zero(tok[0]) \
                 else None
+            if tok and tok[0] == '0' and tok[1] is not None and any(
+                    cls_like_void(c) for c in deck['cells']):
+                cls = 'like_but_mat_void'
             failures.append({'kind': 'no-such-composition', 'cls': cls,
                              'why': f'GEOMCOMP line {name} has no COMPOSITION '
                                     f'of that name ({sorted(comp_names)})'})
@@ -173,6 +183,8 @@ def check_file(deck, t4, rng, n_points=200, compositions=True):
             if name != 'm0':
                 cls = 'material_leading_zero' if cls_leading_zero(mat_tok) \
                     else None
+                if cls_like_void(raw) and mat_tok == '0':
+                    cls = 'like_but_mat_void'
                 failures.append({'kind': 'void-not-m0', 'cls': cls,
                                  'why': where, 'point': list(p)})
             continue
